@@ -217,6 +217,89 @@ template <class E, class CQ> void container_family(char const *qual)
           run(
               "make_variate(gen,uniform_container)", [&]() -> ref_t { return v(); }, g);
         }
+        // histories (see history<>() in C20_common.hpp): a uniform_container used k times, then
+        // wrapped in a variate / copied / moved; the reference index distribution is copied at the
+        // same points.  uniform_container has no param()/reset(), so those routes do not exist.
+        {
+          using V = fcppt::random::variate<G, U>;
+          using RD = std::uniform_int_distribution<size_type>;
+          G g(fc_seed<E>(seed));
+          typename E::sd ref2 = sd_engine<E>(seed);
+          bool ok = true;
+          int pre = 0;
+          auto draw_n = [&](char const *what, int const cnt, auto &&fc, RD &sd) {
+            for (int i = 0; ok && i < cnt; ++i)
+            {
+              ref_t r = fc();
+              size_type const w = sd(ref2);
+              if (std::addressof(r) != std::addressof(c[w]))
+              {
+                vrt::fail(nm + ":history:" + what,
+                          vrt::fmt("after %d earlier draws, draw %d: result is not element %zu (the index std driven the same way gives)",
+                                   pre, i, static_cast<std::size_t>(w)));
+                ok = false;
+              }
+            }
+          };
+          // a second container of the same size for the distributions that get assigned to
+          C other_storage(build<C>::make(n));
+          CQ &other = other_storage;
+          typename U::param_type const full(typename U::param_type::min(0U), typename U::param_type::max(hi));
+          for (int k = 0; ok && k <= 3; ++k)
+          {
+            pre = k;
+            U u(op.get_unsafe());
+            RD rd2(0, hi);
+            draw_n("direct", k, [&]() -> ref_t { return u(g); }, rd2);
+            {
+              V v(fcppt::make_ref(g), u);
+              RD rc(rd2);
+              draw_n("variate(gen,used_distribution)", HIST_N, [&]() -> ref_t { return v(); }, rc);
+            }
+            {
+              auto v = fcppt::random::make_variate(fcppt::make_ref(g), u);
+              RD rc(rd2);
+              draw_n("make_variate(gen,used_distribution)", HIST_N, [&]() -> ref_t { return v(); }, rc);
+            }
+            draw_n("original_after_wrapping", HIST_N, [&]() -> ref_t { return u(g); }, rd2);
+          }
+          for (int j = 1; ok && j <= 3; j += 2)
+          {
+            pre = j;
+            U u(op.get_unsafe());
+            RD rd2(0, hi);
+            draw_n("direct", j, [&]() -> ref_t { return u(g); }, rd2);
+            U uc(u);
+            RD rc(rd2);
+            U ua(fcppt::reference<CQ>(other), full);
+            ua = u; // must now refer to c, not to other
+            RD ra(rd2);
+            U t1(u);
+            U um(std::move(t1));
+            RD rm(rd2);
+            draw_n("distribution_copy_constructed", HIST_N, [&]() -> ref_t { return uc(g); }, rc);
+            draw_n("distribution_copy_assigned", HIST_N, [&]() -> ref_t { return ua(g); }, ra);
+            draw_n("distribution_move_constructed", HIST_N, [&]() -> ref_t { return um(g); }, rm);
+            V v(fcppt::make_ref(g), u);
+            RD rv(rd2);
+            draw_n("variate_direct", j, [&]() -> ref_t { return v(); }, rv);
+            V vc(v);
+            RD rvc(rv);
+            V va(fcppt::make_ref(g), U(fcppt::reference<CQ>(other), full));
+            va = v;
+            RD rva(rv);
+            V t2(v);
+            V vm(std::move(t2));
+            RD rvm(rv);
+            draw_n("variate_copy_constructed", HIST_N, [&]() -> ref_t { return vc(); }, rvc);
+            draw_n("variate_copy_assigned", HIST_N, [&]() -> ref_t { return va(); }, rva);
+            draw_n("variate_move_constructed", HIST_N, [&]() -> ref_t { return vm(); }, rvm);
+            draw_n("variate_original_after_copies", HIST_N, [&]() -> ref_t { return v(); }, rv);
+            draw_n("distribution_original_after_copies", HIST_N, [&]() -> ref_t { return u(g); }, rd2);
+          }
+          if (ok && g() != ref2())
+            vrt::fail(nm + ":history:generator_state", "generator state differs from the std engine after the histories");
+        }
       }
       // every element is reached over the seed set
       char const *const fn_all = intern(nm + ":all_elements");
